@@ -5,13 +5,15 @@ LEVEL = 'exploration'
 SHARDS = {'quick': 8, 'thorough': 16}
 BUDGET = {'quick': 80, 'thorough': 900}
 TECHNIQUE = 'runtime monitoring with a deterministic scheduler: client threads are serialised on sys.monitoring LINE events of sigtools code and preempted at chosen statement boundaries (replayable schedules); boundary monitor compares each result with the sequential answer and the shared objects at quiescence; plus free-running stress with a 1 microsecond switch interval'
-RULE = ('10 shared-object scenarios (two sigtools retrievals of one functools.wraps wrapper; sigtools vs inspect; two inspect retrievals '
+RULE = ('13 shared-object scenarios (two sigtools retrievals of one functools.wraps wrapper; sigtools vs inspect; two inspect retrievals '
         'of an as_forged object (forger wrapper, wrappers.decorator); wrapper and wrapped retrieved concurrently; modifiers- and forger-'
-        'wrapped methods of one instance; three-thread mixes). Per scenario: each operation alone (sequential answer, number of line '
-        'steps, steps at which the shared state is transient); one-preemption schedules (t1 after step k -> t2) at every k (quick: every '
-        'k of a stride of ~1/120 plus all transient-window steps), two-preemption schedules over window x window pairs plus seeded random '
-        'pairs, three-thread chains; then free-running stress (8 threads). Non-trivial: a schedule in which at least one preemption '
-        'happened inside sigtools code; distinct by (scenario, schedule).')
+        'wrapped methods of one instance; a bound wrapper dropped and collected by a third thread while a second looks the method up; the '
+        'first-ever lookups of forged special methods on fresh classes; three-thread mixes). Per scenario: each operation alone (sequential '
+        'answer, number of line steps, steps at which the shared state is transient); one-preemption schedules (t1 after step k -> t2) at '
+        'every k (quick, in priority order within an equal time slice per scenario: transient-window steps, the first 40 steps, the first '
+        'two and the last execution of every distinct statement, a stride of ~1/100), two-preemption schedules over window x window pairs '
+        'plus seeded random pairs, three-thread chains; then free-running stress (8 threads). Non-trivial: a schedule in which at least one '
+        'preemption happened inside sigtools code; distinct by (scenario, schedule).')
 ASSUMPTIONS = ['preemption only at statement boundaries of sigtools code (no interleaving the interpreter cannot produce is manufactured)',
                'a deviating answer is attributed to a known mechanism only if it equals the answer computed sequentially with the shared object put into that mechanism\'s transient state by hand',
                'a hang (30 s watchdog) is inconclusive, never a violation']
